@@ -159,6 +159,36 @@ func runHistCase(o *Oracle, d json.RawMessage, oc *Outcome) {
 		oc.Sample = oc.Sample[:500] + "…"
 	}
 	s := solver.New(pb)
+	// refinement through the abstract machine GS.Cdcl: possible when the base is a CNF and
+	// only clauses are appended (the machine speaks clauses); the solver then runs with a
+	// certificate channel and every emitted line becomes a learn event.
+	replay := c.Cnf != nil && pb.Status != solver.Unsat
+	for _, op := range c.Ops {
+		if op.Op == "append" && (op.PB || op.Card > 1) {
+			replay = false
+		}
+	}
+	var events []string
+	drain := func() {}
+	if replay {
+		s.Certified = true
+		s.CertChan = make(chan string, 1<<16)
+		drain = func() {
+			for {
+				select {
+				case line := <-s.CertChan:
+					if cl, ok := parseCertLine(line); ok {
+						if len(cl) > 0 { // the empty line announces Unsat: the answer event follows
+							events = append(events, evLearn(cl))
+						}
+					}
+				default:
+					return
+				}
+			}
+		}
+		oc.Tag("cdcl-replay")
+	}
 	if pb.Status == solver.Unsat {
 		oc.Tag("base-parse-unsat")
 		// a solver built from a refuted problem has no arrays; appending to it is outside
@@ -198,12 +228,24 @@ func runHistCase(o *Oracle, d json.RawMessage, oc *Outcome) {
 				oc.Tag("append-clause")
 			}
 			s.AppendClause(cl)
+			drain()
+			if len(op.Lits) == 0 {
+				events = append(events, "A e")
+			} else {
+				events = append(events, "A "+encInts(op.Lits))
+			}
 			sem = append(sem, op.lin())
 			if seenSat {
 				oc.Nontrivial = true
 			}
 		case "solve":
 			st := s.Solve()
+			drain()
+			if st == solver.Sat {
+				events = append(events, evModel(s.Model()))
+			} else if st == solver.Unsat {
+				events = append(events, "U")
+			}
 			truth := o.Sat(n, sem)
 			entry := "solver.AppendClause+Solve"
 			switch st {
@@ -231,6 +273,12 @@ func runHistCase(o *Oracle, d json.RawMessage, oc *Outcome) {
 			default:
 				oc.Fail("spec", "never-indet", entry, "op %d: Solve = %v", i, st)
 			}
+		}
+	}
+	if replay {
+		oc.Corr++
+		if a := cdclReplay(o, maxVarCnf(c.Cnf), c.Cnf, events); a != "ok" {
+			oc.Fail("corr", "cdcl-refinement", "solver.AppendClause+Solve", "the history is not a run of the abstract machine GS.Cdcl: %s (events %v)", a, events)
 		}
 	}
 	if wasUnsat {
